@@ -226,10 +226,133 @@ func runC10(c *Check) {
 			}
 		}
 	}
+	// ---- Load: the key state is restored past every reloaded key, including sequence number 0
+	{
+		g := BuildECFG(p, load, ExpandOpts{MaxDepth: 0})
+		fn := fnName(load)
+		recvL := load.Params[0].Name()
+		// which receiver fields feed the key in AddBatch
+		var keyState []string
+		{
+			ga := BuildECFG(p, add, ExpandOpts{MaxDepth: 1})
+			for _, pn := range ga.Select(func(n *Node) bool { return dsCall(n, "Put") }) {
+				ArgTerm(pn, 1).Walk(func(t *Term) bool {
+					if t.Op == "field" && t.Args[0].String() == add.Params[0].Name() && t.Name != "db" {
+						keyState = append(keyState, t.Name)
+					}
+					return true
+				})
+			}
+		}
+		for _, sf := range keyState {
+			stores := g.Select(fieldStoreTo(g, sf))
+			if len(stores) == 0 {
+				c.Bad("C10-R4", "Load ⟂ restores-"+sf, fn, p.Pos(load.Pos()), "reload does not restore the key state "+sf+": after a restart new batches re-use the keys of batches still in the WAL and overwrite them", nil)
+				continue
+			}
+			for _, st := range stores {
+				v := TermOf(st.In.(*ssa.Store).Val, st.Ctx)
+				fromKey := p.DeepContains(v, func(t *Term) bool { return t.IsCall("strconv.ParseUint") }, 1)
+				if !fromKey {
+					c.Bad("C10-R4", "Load ⟂ restores-"+sf, fn, p.InstrPos(st.In), "the restored key state does not derive from the reloaded keys: "+trunc(v.String(), 120), nil)
+					continue
+				}
+				sentinel := ""
+				for _, f := range g.NecessaryEdges(nodeSet([]*Node{st})) {
+					t := f.Cond
+					if t.Op != "bin" {
+						continue
+					}
+					for i := 0; i < 2; i++ {
+						k, o := t.Args[i].unconv(), t.Args[1-i]
+						if k.Op == "const" && k.Name == "0" && (t.Name == ">" || t.Name == "!=" || t.Name == "<" || t.Name == "==") &&
+							p.DeepContains(o, func(x *Term) bool { return x.IsCall("strconv.ParseUint") }, 1) && !strings.Contains(o.String(), recvL+"."+sf) {
+							sentinel = f.String()
+						}
+					}
+				}
+				if sentinel == "" {
+					c.OK("C10-R4", "Load ⟂ restores-"+sf, fn, p.InstrPos(st.In), sf+" is restored from the reloaded sequence keys with no sentinel test on the sequence value", true)
+				} else {
+					c.Bad("C10-R4", "Load ⟂ restores-"+sf, fn, p.InstrPos(st.In), "the restore of "+sf+" is guarded by a comparison of the reloaded sequence number with 0 ("+trunc(sentinel, 100)+"), but 0 is a legitimate sequence number (the first key ever written): with only entry 0 pending at restart the next accepted batch re-uses key 0 and overwrites it", nil)
+				}
+			}
+		}
+	}
+	// ---- key codec agreement: the base the sequence keys are written in is the base they are parsed in
+	{
+		bases := func(fn *ssa.Function, callee string, depth int) map[string]string {
+			out := map[string]string{}
+			seen := map[*ssa.Function]bool{}
+			var visit func(f *ssa.Function, d int)
+			visit = func(f *ssa.Function, d int) {
+				if seen[f] || d > depth {
+					return
+				}
+				seen[f] = true
+				for _, b := range f.Blocks {
+					for _, in := range b.Instrs {
+						call, ok := in.(*ssa.Call)
+						if !ok {
+							continue
+						}
+						cn := commonName(call.Common())
+						if cn == callee {
+							t := TermOf(call, &Ctx{Fn: f})
+							switch callee {
+							case "fmt.Sprintf":
+								var format string
+								if a := t.Args[0].unconv(); a.Op == "const" {
+									fmt.Sscanf(a.Name, "%q", &format)
+								}
+								switch {
+								case strings.ContainsAny(format, "xX") && strings.Contains(format, "%"):
+									out[p.InstrPos(in)] = "16"
+								case strings.Contains(format, "d"):
+									out[p.InstrPos(in)] = "10"
+								default:
+									out[p.InstrPos(in)] = "?" + format
+								}
+							case "strconv.ParseUint":
+								out[p.InstrPos(in)] = t.Args[1].unconv().Name
+							case "strconv.FormatUint":
+								out[p.InstrPos(in)] = t.Args[1].unconv().Name
+							}
+						}
+						if cal := call.Common().StaticCallee(); cal != nil && p.InRepo(cal) && fnPkg(cal) != nil && fnPkg(cal).Pkg.Path() == singlePkg {
+							visit(cal, d+1)
+						}
+					}
+				}
+			}
+			visit(fn, 0)
+			return out
+		}
+		w := bases(add, "fmt.Sprintf", 2)
+		for k, v := range bases(add, "strconv.FormatUint", 2) {
+			w[k] = v
+		}
+		r := bases(load, "strconv.ParseUint", 2)
+		ws, rs := map[string]bool{}, map[string]bool{}
+		for _, v := range w {
+			ws[v] = true
+		}
+		for _, v := range r {
+			rs[v] = true
+		}
+		if len(r) > 0 || len(w) > 0 {
+			wk, rk := sortedKeys(ws), sortedKeys(rs)
+			if len(wk) == 1 && len(rk) == 1 && wk[0] == rk[0] {
+				c.OK("C10-R4", "key-codec ⟂ same-base", fnName(load), p.Pos(load.Pos()), "sequence keys are written and parsed in base "+wk[0], true)
+			} else {
+				c.Bad("C10-R4", "key-codec ⟂ same-base", fnName(load), p.Pos(load.Pos()), fmt.Sprintf("sequence keys are written in base %v but parsed in base %v: after a restart the key state is restored too low and new batches sort before or overwrite pending ones", wk, rk), nil)
+			}
+		}
+	}
 	c.MinInstances("C10-R1", 2)
 	c.MinInstances("C10-R2", 1)
 	c.MinInstances("C10-R3", 1)
-	c.MinInstances("C10-R4", 2)
+	c.MinInstances("C10-R4", 5)
 
 	// ---- Next: FIFO pop
 	{
